@@ -57,6 +57,12 @@ func c17r1(r *R) {
 			if c.Expr(a[0]) == "outer(p0).inShutdown" && c.Expr(a[1]) == "true" {
 				store = i
 			}
+		case isCall(i, "sync/atomic.StoreUint32", "sync/atomic.StoreInt32"):
+			// the flag kept as a plain word set through sync/atomic: non-zero is "shutting down"
+			a := callOf(i).Args
+			if k, isC := constInt(a[1]); c.Expr(a[0]) == "outer(p0).inShutdown" && isC && k != 0 {
+				store = i
+			}
 		case isCall(i, "(*net/http.Server).Shutdown"):
 			if c.Expr(callOf(i).Args[0]) == "outer(p0).HTTPServer" {
 				shut = i
@@ -197,7 +203,8 @@ func c17r2(r *R) {
 	o2 := r.Ob("C17.R2", "shuttingDown-reads-flag").At(sd.Pos())
 	eachInstr(sd, func(i ssa.Instruction) {
 		if ret, ok := i.(*ssa.Return); ok {
-			o2.Check(c.Expr(ret.Results[0]) == "(*sync/atomic.Bool).Load(p0.inShutdown)", "shuttingDown returns %s", c.Expr(ret.Results[0]))
+			e := c.Expr(ret.Results[0])
+			o2.Check(e == "(*sync/atomic.Bool).Load(p0.inShutdown)" || e == "(0 != sync/atomic.LoadUint32(p0.inShutdown))" || e == "(0 != sync/atomic.LoadInt32(p0.inShutdown))", "shuttingDown returns %s", e)
 		}
 	})
 	// inShutdown is only ever set to true, only by the watcher
@@ -207,6 +214,13 @@ func c17r2(r *R) {
 			if strings.HasSuffix(c.Expr(callOf(s).Args[0]), ".inShutdown") {
 				o3.AtI(s)
 				o3.Check(c.Expr(callOf(s).Args[1]) == "true" && fn.Parent() != nil, "inShutdown is written with %s in %s", c.Expr(callOf(s).Args[1]), funcName(fn))
+			}
+		}
+		for _, s := range callsIn(fn, "sync/atomic.StoreUint32", "sync/atomic.StoreInt32", "sync/atomic.SwapUint32", "sync/atomic.CompareAndSwapUint32", "sync/atomic.AddUint32") {
+			if strings.HasSuffix(c.Expr(callOf(s).Args[0]), ".inShutdown") {
+				o3.AtI(s)
+				k, isC := constInt(callOf(s).Args[len(callOf(s).Args)-1])
+				o3.Check(isC && k != 0 && fn.Parent() != nil && !isCall(s, "sync/atomic.AddUint32"), "inShutdown is written with %s in %s", c.Expr(callOf(s).Args[len(callOf(s).Args)-1]), funcName(fn))
 			}
 		}
 	}
